@@ -378,3 +378,13 @@ Theorem pretty_rep s a : wf s -> rep s a ->
   pretty s = (let top := (43 :: repeat 45 (Z.to_nat (aC a)) ++ [43; 10])%N in
               top ++ join [10%N] (map (fun l => (124 :: l ++ [124])%N) (agrid a)) ++ [10%N] ++ top).
 Proof. intros Hwf Hr. unfold pretty. rewrite (grid_rep s a Hwf Hr). destruct Hr as (_ & R2 & _). now rewrite R2. Qed.
+
+(** get_region reads the reference grid over the normalised rectangle *)
+Theorem get_region_rep s a rs cs re ce : wf s -> rep s a ->
+  get_region s rs cs re ce =
+    (let '(rs', cs', re', ce') := norm_region s rs cs re ce in
+     map (fun r => map (fun c => ag a (Z.to_nat (clamp r (aR a) - 1)) (Z.to_nat (clamp c (aC a) - 1))) (zrange cs' ce')) (zrange rs' re')).
+Proof.
+  intros Hwf Hr. unfold get_region. destruct (norm_region s rs cs re ce) as [[[rs' cs'] re'] ce'].
+  apply map_ext. intros r. apply map_ext. intros c. now apply get_abs_rep.
+Qed.
